@@ -35,6 +35,33 @@ mod c08ext {
         }
     }
 
+    /// quick-tier variants with a CONCRETE body length (bytes symbolic): a truncated trace id is an error, not a panic ...
+    #[kani::proof]
+    #[kani::unwind(20)]
+    #[kani::stub(std::rt::thread_cleanup, noop)]
+    #[kani::stub(alloc::fmt::format, empty_string)]
+    fn c08_body_extensions_tracing_truncated() {
+        let raw: [u8; 10] = kani::any();
+        let r = std::mem::ManuallyDrop::new(parse_response_body_extensions(flag::TRACING, None, Bytes::copy_from_slice(&raw[..])));
+        assert!(r.is_err(), "10 bytes cannot hold a 16-byte trace id: error");
+    }
+    /// ... and a body holding exactly the trace id plus two bytes decodes to exactly that
+    #[kani::proof]
+    #[kani::unwind(20)]
+    #[kani::stub(std::rt::thread_cleanup, noop)]
+    #[kani::stub(alloc::fmt::format, empty_string)]
+    fn c08_body_extensions_tracing_exact() {
+        let raw: [u8; 18] = kani::any();
+        match parse_response_body_extensions(flag::TRACING, None, Bytes::copy_from_slice(&raw[..])) {
+            Ok(r) => {
+                let id = r.trace_id.expect("trace id present");
+                assert!(id.as_bytes()[..] == raw[..16], "trace id = first 16 body bytes");
+                assert!(r.body[..] == raw[16..], "remaining body starts right after the trace id");
+            }
+            Err(_) => assert!(false, "a complete trace id decodes"),
+        }
+    }
+
     /// COMPRESSION flag without negotiated compression is an error (never a panic), whatever the body
     #[kani::proof]
     #[kani::unwind(8)]
